@@ -1,25 +1,33 @@
 import Driver.C08Mon
-import OidcModel.Model.ResourceFlow
+import OidcModel.Model.ResourceTime
+import OidcModel.Generated.IssueC06
 open Kv Drv
 
 namespace Drv.C08
 
 structure FullSt where
   mon : _root_.C08.MonState := {}
-  mod : Res.St := {}
+  mod : Res.Timed := {}
   atp : ResATProvider := {}
+  termFromReq : Bool := false        -- the storage implements op.CanTerminateSessionFromRequest
+  defaultLogoutURI : String := ""
   clients : List OPClient := []
   router : Res.Router := .provider
   deriving Inhabited
 
 /-- the inputs of the request on this line: clock, issuer it is addressed to, and what the real AES / go-jose code made of the
     presented string (the oracles of the model) -/
-def envOf (clients : List OPClient) (l : Line) : Res.Env :=
+def envOf (clients : List OPClient) (l : Line) (now : Int) : Res.Env :=
   let tok := parseToken l
   let plain := opt l "p.plain"
-  { now := int l "now0", issuer := str l "iss",
-    decrypt := fun _ => match plain with | some s => .ok s | none => .error "decrypt",
-    tokenOf := fun _ => tok, jtiOf := fun _ => str l "p.jti",
+  { now := now, issuer := str l "iss",
+    -- the storage method that was made to fail while this request was served (an input of the history)
+    faults := if str l "fault" == "" then [] else [str l "fault"],
+    -- (a delegation exchange presents a second string, the actor token: its plaintext travels as `a.plain`)
+    decrypt := fun s => if has l "atok" && s == str l "a.raw" then (match opt l "a.plain" with | some p => .ok p | none => .error "decrypt")
+                        else match plain with | some s => .ok s | none => .error "decrypt",
+    -- (the actor string of a delegation exchange is never a JWT in this stream)
+    tokenOf := fun s => if has l "atok" && s == str l "a.raw" then default else tok, jtiOf := fun _ => str l "p.jti",
     -- what the Provider router's request parsers read: the registrations and `Provider.JWTProfileVerifier(ctx)`
     clientStore := { clients := clients }, postSupported := true, pkjwtSupported := true,
     jwtProfileVerifier := { Issuer := str l "iss", MaxAgeIAT := 3600 * Go.second, Offset := Go.second, Storage := _root_.C04.registry clients } }
@@ -51,48 +59,96 @@ def showRef : Option Res.Ref → String
   | some (.rt t) => "accepted:" ++ t
   | none => "refused"
 
+/-- the `exp` claim the REGENERATED `CreateAccessToken` / `CreateJWT` write into a JWT access token when the storage returned `exp` and
+    the client's `ClockSkew()` is `skew`: the signer is shown the claims -/
+def modelExpClaim (now exp skew : Int) (id : String) : String :=
+  match GenC06.CreateAccessToken now {} IssConst.AccessTokenTypeJWT
+      { Storage := { CreateAccessToken := fun _ => .ok (id, exp), SigningKey := .ok { signAT := fun c => .ok (toString c.Expiration) } } }
+      { ClockSkew := skew } "" with
+  | .ok (t, _, _) => t
+  | .error e => "err:" ++ e
+
+/-- the provider as the end_session code of both routers sees it while serving the request of this line -/
+def enderOf (fs : FullSt) (l : Line) : SessionEnder :=
+  Sess.constructedEnder 0 (str l "iss") fs.atp.accessTokenKeySet [] fs.atp.accessTokenVerifierOpts
+    { clients := fs.clients, is_CanTerminateSessionFromRequest := fs.termFromReq } fs.defaultLogoutURI
+
+/-- the model's answer to the line when the request is made at `now`: new storage state, model string -/
+def modelAt (fs : FullSt) (l : Line) (now : Int) : Res.Timed × String :=
+  let e := envOf fs.clients l now
+  let raw := str l "raw"
+  let y := fs.mod.tick now          -- the storage as a call made at `now` sees it
+  match str l "op" with
+  | "issue" =>
+    let rt : Option Res.RTok := if str l "rt" != "" then some { token := str l "rt", client := str l "client", subject := str l "sub", access := str l "id", issuer := str l "iss", exp := int l "rtexp" } else none
+    let t : Res.Tok := { id := str l "id", client := str l "client", subject := str l "sub", audience := list l "aud", refresh := str l "rt", issuer := str l "iss", exp := int l "exp", jwt := bool l "jwt" }
+    ((Res.stepT fs.atp fs.mod (.issue t rt)).1,
+     if bool l "jwt" then "issued:exp=" ++ modelExpClaim now (int l "exp") (int l "skew") (str l "id") else "issued")
+  | "expire" => ((Res.stepT fs.atp fs.mod (.expire (if str l "kind" == "rt" then .rt (str l "id") else .at (str l "id")))).1, "expired")
+  | "userinfo" =>
+    (y, match Res.userinfo fs.router fs.atp e y.st raw with | .claims u => "200:" ++ u.Subject | .refused c => toString c)
+  | "introspect" =>
+    -- Provider router: the whole request through the regenerated parser; legacy server: the caller `authenticateResourceClient` establishes
+    let r := if fs.router == .provider then Res.introspectRequest fs.atp e y.st (requestOf fs l now)
+             else Res.introspect fs.router fs.atp e y.st (modelCaller fs l now false) raw
+    (y, match r with
+        | .answer r => if r.Active then "active" else "inactive"
+        | .unauthorized => "unauthorized")
+  | "revoke" =>
+    let (s', r) := if fs.router == .provider then Res.revokeRequest fs.atp e y.st (requestOf fs l now)
+                   else Res.revoke fs.router fs.atp e y.st (modelCaller fs l now true) (str l "hint") raw
+    ({ y with st := s' }, match r with | .ok => "ok" | .refused => "refused")
+  | "endsession" =>
+    -- both routers' REGENERATED end_session handlers, on the token tables, under the storage fault of the line
+    let o : SessOracles := { pathMatch := fun _ _ => .ok false, urlParse := fun _ => .error "no state in this stream", tokenOf := fun _ => parseToken l }
+    let (s', ans) := Res.logout (if fs.router == .legacy then .legacy else .provider) now o (.ok { IdTokenHint := "hint" }) (enderOf fs l) e.faults (str l "iss") y.st
+    ({ y with st := s' }, match ans with | .redirect _ => "redirect" | .error st _ => "error:" ++ toString st)
+  | "exchange" =>
+    let actor := if has l "atok" then some (str l "a.raw") else none
+    (y, if (Res.exchangeD fs.atp e y.st (str l "stype" == "refresh") raw actor).isSome then "accepted" else "refused")
+  | "refresh" =>
+    let (s', r) := Res.step fs.atp y.st (.refresh e raw)
+    ({ y with st := s' }, if r.isSome then "accepted" else "refused")
+  | _ => (fs.mod, "?")
+
+def observed (l : Line) : String :=
+  match str l "op" with
+  | "reset" => "reset"
+  | "issue" => if bool l "jwt" then "issued:exp=" ++ toString (int l "jwtexp") else "issued"
+  | "expire" => "expired"
+  | "userinfo" => if nat l "o.status" == 200 then "200:" ++ str l "o.sub" else toString (nat l "o.status")
+  | "introspect" => if bool l "o.active" then "active" else if nat l "o.status" == 200 then "inactive" else "unauthorized"
+  | "revoke" => if nat l "o.status" == 200 then "ok" else "refused"
+  | "endsession" => if nat l "o.status" < 400 then "redirect" else "error:" ++ toString (nat l "o.status")
+  | "exchange" => if bool l "o.success" then "accepted" else "refused"
+  | "refresh" => if bool l "o.success" then "accepted" else "refused"
+  | _ => "?"
+
 def step (fs : FullSt) (l : Line) : FullSt × String :=
   let (mon', v) := monStep fs.mon l
-  let now := int l "now0"
-  let e := envOf fs.clients l
-  let raw := str l "raw"
-  let (mod', modelS, obsS) : Res.St × String × String :=
-    match str l "op" with
-    | "reset" => ({}, "reset", "reset")
-    | "issue" =>
-      let rt : Option Res.RTok := if str l "rt" != "" then some { token := str l "rt", client := str l "client", subject := str l "sub", access := str l "id", issuer := str l "iss" } else none
-      ((Res.step fs.atp fs.mod (.issue { id := str l "id", client := str l "client", subject := str l "sub", audience := list l "aud", refresh := str l "rt", issuer := str l "iss" } rt)).1,
-       "issued", "issued")
-    | "expire" => ((Res.step fs.atp fs.mod (.expire (if str l "kind" == "rt" then .rt (str l "id") else .at (str l "id")))).1, "expired", "expired")
-    | "userinfo" =>
-      (fs.mod, (match Res.userinfo fs.router fs.atp e fs.mod raw with | .claims u => "200:" ++ u.Subject | .refused c => toString c),
-       (if nat l "o.status" == 200 then "200:" ++ str l "o.sub" else toString (nat l "o.status")))
-    | "introspect" =>
-      -- Provider router: the whole request through the regenerated parser; legacy server: the caller `authenticateResourceClient` establishes
-      let r := if fs.router == .provider then Res.introspectRequest fs.atp e fs.mod (requestOf fs l now)
-               else Res.introspect fs.router fs.atp e fs.mod (modelCaller fs l now false) raw
-      (fs.mod, (match r with
-                | .answer r => if r.Active then "active" else "inactive"
-                | .unauthorized => "unauthorized"),
-       (if bool l "o.active" then "active" else if nat l "o.status" == 200 then "inactive" else "unauthorized"))
-    | "revoke" =>
-      let (s', r) := if fs.router == .provider then Res.revokeRequest fs.atp e fs.mod (requestOf fs l now)
-                     else Res.revoke fs.router fs.atp e fs.mod (modelCaller fs l now true) (str l "hint") raw
-      (s', (match r with | .ok => "ok" | .refused => "refused"), (if nat l "o.status" == 200 then "ok" else "refused"))
-    | "endsession" => (if bool l "o.terminated" then fs.mod.TerminateSession (str l "iss") (str l "sub") (str l "client") else fs.mod, "done", "done")
-    | "exchange" =>
-      (fs.mod, (if (Res.exchange fs.atp e fs.mod (str l "stype" == "refresh") raw).isSome then "accepted" else "refused"),
-       (if bool l "o.success" then "accepted" else "refused"))
-    | "refresh" =>
-      let (s', r) := Res.step fs.atp fs.mod (.refresh (str l "iss") raw)
-      (s', (if r.isSome then "accepted" else "refused"), (if bool l "o.success" then "accepted" else "refused"))
-    | _ => (fs.mod, "?", "?")
-  let agree := modelS == obsS
-  let fs' : FullSt :=
-    if str l "op" == "reset" then
-      -- a request-derived issuer: the reference storage keeps the tenants apart (refstore MultiTenant)
-      { mon := mon', mod := { partitioned := str l "issmode" != "static" }, atp := { accessTokenKeySet := parseKeySet l "ks." }, clients := Drv.Flow.parseClients l, router := if str l "router" == "legacy" then .legacy else .provider }
-    else { fs with mon := mon', mod := mod' }
-  (fs', s!"case={str l "case"} class={cls l} model={modelS} observed={obsS} monitor={showMon v} agree={if agree then 1 else 0}")
+  if str l "op" == "reset" then
+    -- a request-derived issuer: the reference storage keeps the tenants apart (refstore MultiTenant)
+    let fs' : FullSt :=
+      { mon := mon', mod := { st := { partitioned := str l "issmode" != "static" }, expiryByClaim := bool l "byclaim" },
+        -- a provider signing with a non-default algorithm was given `WithSupportedAccessTokenSigningAlgorithms(alg)` (and the same for hints)
+        atp := { accessTokenKeySet := parseKeySet l "ks.", accessTokenVerifierOpts := if str l "sigalg" == "RS256" || str l "sigalg" == "" then [] else [str l "sigalg"] },
+        clients := Drv.Flow.parseClients l,
+        router := if str l "router" == "legacy" then .legacy else .provider,
+        termFromReq := bool l "termfromreq", defaultLogoutURI := str l "default" }
+    (fs', s!"case={str l "case"} class={cls l} model=reset observed=reset monitor={showMon v} agree=1")
+  else
+    let obsS := observed l
+    -- the request was served somewhere between now0 and now1: the model may side with either instant (expiry edges)
+    let (m0, s0) := modelAt fs l (int l "now0")
+    let (mod', modelS) :=
+      if s0 == obsS || !(has l "now1") then (m0, s0)
+      else
+        let (m1, s1) := modelAt fs l (int l "now1")
+        if s1 == obsS then (m1, s1) else (m0, s0)
+    let agree := modelS == obsS
+    -- (an agreeing exp claim is shown without its value, so that the outcome classes do not multiply with the clock)
+    let (modelS, obsS) := if agree && str l "op" == "issue" && bool l "jwt" then ("issued:jwt", "issued:jwt") else (modelS, obsS)
+    ({ fs with mon := mon', mod := mod' },
+     s!"case={str l "case"} class={cls l} model={modelS} observed={obsS} monitor={showMon v} agree={if agree then 1 else 0}")
 
 end Drv.C08
